@@ -165,6 +165,22 @@ theorem upgradeBatch_suffices (c : Cfg) (d : Option Dep) (s : Step) (o : StepOut
             split <;> simp
   · rfl
 
+/-- **C07 (… and then the batch can become ready)** — the context `CalculateBatchContext` builds for the batch has
+    `DesiredUpdatedReplicas = NewRSReplicasLimit(canaryReplicas)`; once the advanced deployment controller has used
+    the limit `upgradeBatch_suffices` guarantees (that many pods updated and ready), `IsBatchReady` passes, whatever
+    the (non-negative) failure threshold. -/
+theorem ready_when_limit_reached (r upd : Int) (e cur : IntOrPct) (ft : Option IntOrPct)
+    (h : newRSReplicasLimit e r ≤ upd) (hft : 0 ≤ allowedUnavailable ft upd) :
+    RV.BatchCtx.isBatchReady
+      { replicas := r, updated := upd, updatedReady := upd, planned := newRSReplicasLimit e r,
+        desired := newRSReplicasLimit e r, knobCur := cur, knobDes := e, failureThreshold := ft } none = .ok := by
+  unfold RV.BatchCtx.isBatchReady
+  simp only
+  have h1 : ¬ upd < newRSReplicasLimit e r := by omega
+  have h2 : ¬ allowedUnavailable ft upd + upd < newRSReplicasLimit e r := by omega
+  have h3 : ¬ (newRSReplicasLimit e r > 0 ∧ upd = 0) := by omega
+  simp only [h1, h2, h3, if_false]
+
 /-! ## C06 — API faults and repetition -/
 
 /-- **C06 (fault safety)** — a controller call hit by an API fault leaves the Deployment exactly as it was: a failed
@@ -678,7 +694,7 @@ theorem ok_has_effect_partial (c : Cfg) (d : Option Dep) (s : Step) (o : StepOut
           subst hd'
           simp only [hdep, hpa, if_true]
           unfold finalized
-          cases s.bpNil <;> simp
+          cases s.bpNil <;> simp [released]
     · cases d <;> cases o.dep <;> rfl
   · rfl
 
